@@ -2,5 +2,6 @@ SPECIFICATION Spec
 CONSTANTS
   Prop = "ALL"
   DevAstralNul = FALSE
+  DevStuck = FALSE
 POSTCONDITION Accepted
 CHECK_DEADLOCK FALSE
